@@ -144,6 +144,8 @@ def run_stream(harness, prop, tier, seed, extra_args=()):
             c["spec"] = m.get("spec")
             c["guard"] = m.get("guard", [])
             c["tags"] = m.get("tags", [])
+            if "arity" in m:
+                c["arity"] = m["arity"]
             out.append(c)
     cases.unlink()
     model.unlink()
